@@ -337,7 +337,8 @@ impl Version {
     #[doc = include_str!("../examples/parse.rs")]
     /// ```
     pub fn parse<S: AsRef<str>>(input: S) -> Result<Version, SemverError> {
-        let mut input = input.as_ref();
+        let original = input.as_ref();
+        let mut input = original;
 
         if input.len() > MAX_LENGTH {
             // Point at the last character, which may be several bytes long.
@@ -352,9 +353,11 @@ impl Version {
         match version.parse_next(&mut input) {
             Ok(arg) => Ok(arg),
             Err(err) => Err(match err {
+                // `input` has been advanced by the parser: report against
+                // the string that was passed in.
                 ErrMode::Backtrack(e) | ErrMode::Cut(e) => SemverError {
-                    input: input.into(),
-                    span: (e.input.as_ptr() as usize - input.as_ptr() as usize, 0).into(),
+                    input: original.into(),
+                    span: (e.input.as_ptr() as usize - original.as_ptr() as usize, 0).into(),
                     kind: if let Some(kind) = e.kind {
                         kind
                     } else if let Some(ctx) = e.context {
